@@ -9,7 +9,7 @@ Kws == Shard.hdr.keywords
 VARIABLE i
 
 Clause(e) ==
-  IF e.res # "ok" THEN <<"raises_" \o e.res, "">>
+  IF e.res # "ok" THEN <<"raises_" \o e.res, IF KF_C19_FieldShadowsMessageMethod(e.field, Shard.hdr.message_attrs) THEN "KF_C19_FieldShadowsMessageMethod" ELSE "">>
   ELSE IF ~SafeName(e.field, Kws) THEN <<"field_name_not_a_safe_identifier", "">>
   ELSE IF ~SafeName(e.method, Kws) THEN <<"method_name_not_a_safe_identifier", "">>
   ELSE IF ~SafeName(e.class, Kws) THEN <<"class_name_not_a_safe_identifier", "">>
